@@ -703,6 +703,9 @@ Qed.
 Lemma NoDup_app3_l {A} (a b c : list A) : NoDup (a ++ b ++ c) -> NoDup (a ++ b).
 Proof. rewrite app_assoc. apply NoDup_app_l. Qed.
 
+Lemma NoDup_app4_l {A} (a b c d : list A) : NoDup (a ++ b ++ c ++ d) -> NoDup (a ++ b ++ c).
+Proof. rewrite (app_assoc b), app_assoc. intros H. now apply NoDup_app_l in H. Qed.
+
 Lemma wrap_lists_T s : forall stack a, (adepth a + List.length stack <= 30)%nat ->
   exists a', wrap_lists (T s a) stack = Ok (T s a') /\ adepth a' = (adepth a + List.length stack)%nat.
 Proof.
@@ -914,8 +917,8 @@ Proof.
     + rewrite G2, map_app. cbn [map fst]. rewrite <- app_assoc. cbn [app].
       change (fo_eid h :: all_eids sub ++ flat_map sub_eids r) with ((fo_eid h :: all_eids sub) ++ flat_map sub_eids r) in Ie.
       eapply NoDup_app3_l. exact Ie.
-    + rewrite G3, map_app, G4, <- app_assoc. rewrite <- app_assoc in Io. rewrite (app_assoc (fo_fsout h)) in Io.
-      rewrite app_assoc. rewrite app_assoc in Io. eapply NoDup_app_l. exact Io.
+    + rewrite G3, map_app, G4, <- app_assoc. rewrite <- app_assoc in Io.
+      eapply NoDup_app4_l. exact Io.
     + exists s1. split; [exact Hs1|].
       destruct (add_shape _ _ _ _ _ Hs1) as (nv & ne & no & A1 & K1 & A2 & K2 & A3 & K3 & _).
       repeat split.
@@ -939,3 +942,1067 @@ Proof.
   destruct (add_ok (rq_vars q) (rq_comp q) [] [] (mkSt [] [] []) Hwf Hs) as (st' & E); try assumption.
   unfold index_query. rewrite E. cbn [bind]. eauto.
 Qed.
+
+(* ================================================================== *)
+(* 8. links to the engine proofs                                       *)
+(* ================================================================== *)
+Lemma merge_steps_nofolds es : merge_steps es [] = Ok (map SEdge es).
+Proof. destruct es; reflexivity. Qed.
+
+Lemma edges_only_map es : (forall e, In e es -> edge_ok e = true) -> edges_only (map SEdge es) = true.
+Proof.
+  induction es as [|e r IH]; intros H; cbn [map edges_only]; [reflexivity|].
+  rewrite (H e (or_introl eq_refl)). apply IH. intros e' He'. apply H. now right.
+Qed.
+
+(* the hypothesis of SimTop.interpret_fold_free_spec / C01_engine_refines_spec_fold_free *)
+Theorem wf_ir_edges_only q q' :
+  wf_ir q = true -> fold_free q = true -> lower_query q = Ok q' ->
+  edges_only (c_steps (q_comp q')) = true.
+Proof.
+  intros Hwf Hff Hl. destruct (wf_ir_inv q Hwf) as (Hc & _).
+  destruct q as [rn rp [root vs es fs outs] vars]. unfold fold_free in Hff. cbn [rq_comp raw_folds rq_vars] in *.
+  destruct fs; [|discriminate].
+  pose proof (wf_comp_inv _ _ _ _ _ _ _ Hc) as (_ & _ & _ & _ & Hedges & _).
+  unfold lower_query in Hl. cbn [rq_comp] in Hl. rewrite lower_eq in Hl. cbn [lower_folds bind] in Hl.
+  rewrite merge_steps_nofolds in Hl. cbn [bind] in Hl.
+  destruct (check_visits [root] (map SEdge es)); cbn [bind] in Hl; [|discriminate].
+  injection Hl as <-. cbn [q_comp c_steps]. apply edges_only_map.
+  intros e He. now destruct (edge_wf_inv _ _ (Hedges _ He)) as (_ & _ & _ & _ & Hok).
+Qed.
+
+Theorem wf_fold_free_engine_refines re g args q q' rows :
+  ty_indep g -> wf_ir q = true -> fold_free q = true -> lower_query q = Ok q' ->
+  interpret re g args q' = Ok rows ->
+  Forall2 row_equiv rows (sem re g args q').
+Proof.
+  intros Hi Hwf Hff Hl Hr. eapply interpret_fold_free_spec; eauto using wf_ir_edges_only.
+Qed.
+
+Fixpoint all_edges (c : raw_comp) : list ir_edge :=
+  match c with
+  | RComp _ _ es fs _ => es ++ flat_map (fun f => match f with RFold _ sub => all_edges sub end) fs
+  end.
+
+Lemma wf_comp_edges_ok vars : forall c avail, wf_comp vars avail c = true ->
+  forall e, In e (all_edges c) -> edge_ok e = true.
+Proof.
+  induction c as [root vs es fs outs IHfs] using raw_comp_ind'. intros avail Hwf e He.
+  pose proof (wf_comp_inv _ _ _ _ _ _ _ Hwf) as (_ & _ & _ & _ & Hedges & _ & _ & Hfolds).
+  cbn [all_edges] in He. apply in_app_or in He. destruct He as [He|He].
+  - now destruct (edge_wf_inv _ _ (Hedges _ He)) as (_ & _ & _ & _ & Hok).
+  - apply in_flat_map in He. destruct He as ([h sub] & Hin & He).
+    rewrite Forall_forall in IHfs. destruct (Hfolds _ _ Hin) as (_ & _ & _ & Hw).
+    exact (IHfs _ Hin _ Hw _ He).
+Qed.
+
+(* the hypothesis `r_depth r0 <> 0` of ExecNoPanic.recursive_expansion_no_panic, for every edge *)
+Theorem wf_ir_recursion_depth q : wf_ir q = true ->
+  forall e r, In e (all_edges (rq_comp q)) -> e_rec e = Some r -> r_depth r <> 0.
+Proof.
+  intros Hwf e r He Hr. destruct (wf_ir_inv q Hwf) as (Hc & _).
+  pose proof (wf_comp_edges_ok _ _ _ Hc e He) as Hok. unfold edge_ok in Hok. rewrite Hr in Hok.
+  destruct (N.eqb_spec (r_depth r) 0); [discriminate|assumption].
+Qed.
+
+Theorem index_query_contents q ix : index_query q = Ok (inr ix) ->
+  map fst (ix_vids ix) = all_vids (rq_comp q) /\
+  map fst (ix_eids ix) = all_eids (rq_comp q) /\
+  map fst (ix_outputs ix) = all_outs (rq_comp q).
+Proof.
+  unfold index_query. intros H. inv_bind H. destruct x as [e|st]; [discriminate|]. injection H as <-.
+  destruct (add_shape _ _ _ _ _ Hx) as (nv & ne & no & A1 & K1 & A2 & K2 & A3 & K3 & _).
+  cbn [ix_vids ix_eids ix_outputs st_vids st_eids st_outs app] in *. subst. auto.
+Qed.
+
+(* ================================================================== *)
+(* 9. C13: rows carry exactly the declared output names                *)
+(* ================================================================== *)
+Section Rows.
+  Variable g : graph.
+
+  Definition own_row (vs : list ir_vertex) (a : asg) (outs : list (string * ctxfield)) : row :=
+    map (fun o => (fst o, out_value g vs a (snd o))) outs.
+
+  Definition fold_row (a : asg) (h : fold_hdr) (sub : ir_component) : row :=
+    match lookup_N (fo_eid h) (a_f a) with
+    | Some (Some l) =>
+        map (fun n => (n, U64 (Z.of_nat (List.length l)))) (fo_fsout h) ++
+        map (fun n => (n, List (map (fun r => row_get r n) (map (project g sub) l)))) (all_output_names sub)
+    | _ => map (fun n => (n, Null)) (fo_fsout h ++ all_output_names sub)
+    end.
+
+  Fixpoint project_steps (a : asg) (ss : list step) : row :=
+    match ss with
+    | [] => []
+    | SEdge _ :: r => project_steps a r
+    | SFold h sub :: r => fold_row a h sub ++ project_steps a r
+    end.
+
+  Lemma project_eq root vs ss outs a :
+    project g (mkComp root vs ss outs) a = own_row vs a outs ++ project_steps a ss.
+  Proof.
+    cbn [project]. f_equal. induction ss as [|[e|h sub] r IH]; cbn [project_steps]; [reflexivity|exact IH|].
+    rewrite <- IH. reflexivity.
+  Qed.
+
+  Fixpoint names_steps (ss : list step) : list string :=
+    match ss with
+    | [] => []
+    | SEdge _ :: r => names_steps r
+    | SFold h sub :: r => fo_fsout h ++ all_output_names sub ++ names_steps r
+    end.
+
+  Lemma all_output_names_eq root vs ss outs :
+    all_output_names (mkComp root vs ss outs) = map fst outs ++ names_steps ss.
+  Proof.
+    cbn [all_output_names]. f_equal.
+  Qed.
+
+  Lemma fold_row_keys a h sub : map fst (fold_row a h sub) = fo_fsout h ++ all_output_names sub.
+  Proof.
+    unfold fold_row. destruct (lookup_N (fo_eid h) (a_f a)) as [[l|]|].
+    - rewrite map_app, !map_map. cbn [fst]. now rewrite !map_id.
+    - rewrite map_map. cbn [fst]. now rewrite map_id.
+    - rewrite map_map. cbn [fst]. now rewrite map_id.
+  Qed.
+
+  (* the key list of a projected row is a function of the query alone *)
+  Lemma project_keys c a : map fst (project g c a) = all_output_names c.
+  Proof.
+    destruct c as [root vs ss outs]. rewrite project_eq, all_output_names_eq, map_app. f_equal.
+    - unfold own_row. rewrite map_map. reflexivity.
+    - induction ss as [|[e|h sub] r IH]; cbn [project_steps names_steps]; [reflexivity|exact IH|].
+      now rewrite map_app, fold_row_keys, IH, <- app_assoc.
+  Qed.
+End Rows.
+
+Lemma insert_row_s_perm k v r : Permutation (insert_row_s k v r) ((k, v) :: r).
+Proof.
+  induction r as [|[k' v'] t IH]; cbn [insert_row_s]; [apply Permutation_refl|].
+  destruct (String.leb k k'); [apply Permutation_refl|].
+  eapply Permutation_trans; [apply perm_skip; exact IH|apply perm_swap].
+Qed.
+Lemma sort_row_perm r : Permutation (sort_row r) r.
+Proof.
+  induction r as [|[k v] t IH]; [apply Permutation_refl|]. cbn [sort_row fold_right fst snd].
+  fold (sort_row t). eapply Permutation_trans; [apply insert_row_s_perm|]. now apply perm_skip.
+Qed.
+
+(* rows carry exactly the declared names *)
+Theorem row_names g c a n :
+  lookup_str n (sort_row (project g c a)) <> None <-> In n (all_output_names c).
+Proof.
+  rewrite lookup_sort_row, <- (project_keys g c a). split.
+  - intros H. destruct (lookup_str n (project g c a)) eqn:E; [|congruence].
+    apply lookup_str_in in E. apply in_map_iff. exists (n, f). auto.
+  - intros H E. apply lookup_str_none in E. contradiction.
+Qed.
+
+Theorem row_keys_perm g c a : Permutation (map fst (sort_row (project g c a))) (all_output_names c).
+Proof. rewrite <- (project_keys g c a). apply Permutation_map. apply sort_row_perm. Qed.
+
+Theorem sem_row_keys re g args q r :
+  In r (sem re g args q) ->
+  Permutation (map fst r) (all_output_names (q_comp q)) /\
+  forall n, lookup_str n r <> None <-> In n (all_output_names (q_comp q)).
+Proof.
+  unfold sem. intros H. apply in_map_iff in H. destruct H as (a & <- & _).
+  split; [apply row_keys_perm|intros n; apply row_names].
+Qed.
+
+(* ---- the names the indexer declares are the names the rows carry ---- *)
+Lemma names_steps_folds ss :
+  names_steps ss = flat_map (fun hc => fo_fsout (fst hc) ++ all_output_names (snd hc)) (steps_folds ss).
+Proof.
+  induction ss as [|[e|h sub] r IH]; cbn [names_steps steps_folds flat_map fst snd]; [reflexivity|exact IH|].
+  now rewrite IH, <- app_assoc.
+Qed.
+
+Lemma lower_names : forall c c', lower c = Ok c' -> all_output_names c' = all_outs c.
+Proof.
+  induction c as [root vs es fs outs IHfs] using raw_comp_ind'. intros c' H.
+  destruct (lower_inv _ _ _ _ _ _ H) as (fs' & ss & Hlf & Hm & ->).
+  destruct (merge_steps_proj _ _ _ Hm) as (_ & Efs).
+  rewrite all_output_names_eq, all_outs_eq, names_steps_folds, Efs. f_equal.
+  pose proof (lower_folds_inv _ _ Hlf) as HF2. clear - HF2 IHfs.
+  induction HF2 as [|f hc l1 l2 (E1 & E2) _ IH]; [reflexivity|].
+  inversion IHfs as [|? ? Hf Hr]; subst. cbn [flat_map]. rewrite (IH Hr), E1, (Hf _ E2).
+  destruct f; reflexivity.
+Qed.
+
+Theorem declared_names_agree q ix q' :
+  index_query q = Ok (inr ix) -> lower_query q = Ok q' ->
+  map fst (ix_outputs ix) = all_output_names (q_comp q').
+Proof.
+  intros Hi Hl. destruct (index_query_contents _ _ Hi) as (_ & _ & ->).
+  unfold lower_query in Hl. inv_bind Hl. injection Hl as <-. cbn [q_comp]. symmetry. now apply lower_names.
+Qed.
+
+(* ================================================================== *)
+(* 10. C13: the shape of the specification's assignments              *)
+(* ================================================================== *)
+Lemma steps_edges_app l1 l2 : steps_edges (l1 ++ l2) = steps_edges l1 ++ steps_edges l2.
+Proof. induction l1 as [|[e|h c] r IH]; cbn [app steps_edges]; [reflexivity|now rewrite IH|exact IH]. Qed.
+Lemma steps_folds_app l1 l2 : steps_folds (l1 ++ l2) = steps_folds l1 ++ steps_folds l2.
+Proof. induction l1 as [|[e|h c] r IH]; cbn [app steps_folds]; [reflexivity|exact IH|now rewrite IH]. Qed.
+
+Lemma optional_vertices_from_app l1 : forall l2 acc,
+  optional_vertices_from (l1 ++ l2) acc = optional_vertices_from l2 (optional_vertices_from l1 acc).
+Proof. induction l1 as [|e r IH]; intros l2 acc; cbn [app optional_vertices_from]; [reflexivity|apply IH]. Qed.
+
+Lemma optional_vertices_snoc es e :
+  optional_vertices (es ++ [e]) =
+  if e_optional e || memN (e_from e) (optional_vertices es) then e_to e :: optional_vertices es
+  else optional_vertices es.
+Proof. unfold optional_vertices. rewrite optional_vertices_from_app. reflexivity. Qed.
+
+Lemma optional_vertices_mono es e v : In v (optional_vertices es) -> In v (optional_vertices (es ++ [e])).
+Proof. rewrite optional_vertices_snoc. destruct (e_optional e || memN (e_from e) (optional_vertices es)); [now right|auto]. Qed.
+
+Lemma Forall2_app_one {A B} (R : A -> B -> Prop) l1 l2 x y :
+  Forall2 R l1 l2 -> R x y -> Forall2 R (l1 ++ [x]) (l2 ++ [y]).
+Proof. intros H Hxy. apply Forall2_app; [exact H|]. constructor; [exact Hxy|constructor]. Qed.
+
+Lemma Forall2_impl' {A B} (R R' : A -> B -> Prop) l1 l2 :
+  (forall x y, R x y -> R' x y) -> Forall2 R l1 l2 -> Forall2 R' l1 l2.
+Proof. intros Hi H. induction H; constructor; auto. Qed.
+
+(* every `from` is the root or the `to` of an earlier non-fold edge *)
+Fixpoint bound_ok (bound : list N) (ss : list step) : Prop :=
+  match ss with
+  | [] => True
+  | SEdge e :: r => In (e_from e) bound /\ bound_ok (e_to e :: bound) r
+  | SFold h _ :: r => In (fo_from h) bound /\ bound_ok bound r
+  end.
+
+Lemma bound_ok_incl ss : forall b1 b2, incl b1 b2 -> bound_ok b1 ss -> bound_ok b2 ss.
+Proof.
+  induction ss as [|[e|h c] r IH]; intros b1 b2 Hi H; cbn [bound_ok] in *; [exact I| |].
+  - destruct H as (H1 & H2). split; [auto|]. eapply IH; [|exact H2].
+    intros x [<-|Hx]; [now left|right; auto].
+  - destruct H as (H1 & H2). split; [auto|]. eapply IH; eauto.
+Qed.
+
+Lemma bound_ok_sorted ss : forall bound,
+  StronglySorted N.lt (map step_eid ss) ->
+  (forall s, In s ss -> step_to s = step_eid s + 1 /\ step_from s < step_to s) ->
+  (forall s, In s ss -> In (step_from s) bound \/ exists e', In (SEdge e') ss /\ e_to e' = step_from s) ->
+  bound_ok bound ss.
+Proof.
+  induction ss as [|s r IH]; intros bound Hs Hshape Hfrom; [exact I|].
+  cbn [map] in Hs. inversion Hs as [|? ? Hs1 Hs2]; subst.
+  destruct (Hshape s (or_introl eq_refl)) as (Et & Hlt).
+  assert (Hv : In (step_from s) bound).
+  { destruct (Hfrom s (or_introl eq_refl)) as [H|(e' & [E|Hin] & E2)]; [exact H| |].
+    - subst s. cbn [step_from step_to] in *. lia.
+    - destruct (Hshape _ (or_intror Hin)) as (Et' & _). cbn [step_to step_eid] in Et'.
+      rewrite Forall_forall in Hs2. specialize (Hs2 _ (in_map step_eid _ _ Hin)). cbn [step_eid] in Hs2. lia. }
+  assert (Hrest : forall bound', incl bound bound' ->
+            (forall e, s = SEdge e -> In (e_to e) bound') -> bound_ok bound' r).
+  { intros bound' Hi He. apply IH; [exact Hs1|intros s0 H0; apply Hshape; now right|].
+    intros s0 H0. destruct (Hfrom s0 (or_intror H0)) as [H|(e' & [E|Hin] & E2)].
+    - left. auto.
+    - left. rewrite <- E2. apply He. now symmetry.
+    - right. eauto. }
+  destruct s as [e|h c]; cbn [bound_ok step_from] in *; (split; [exact Hv|]).
+  - apply Hrest; [intros x Hx; now right|]. intros e0 [= <-]. now left.
+  - apply Hrest; [apply incl_refl|]. intros e0 [=].
+Qed.
+
+Section SemShape.
+  Variable re_match : string -> string -> option bool.
+  Variable g : graph.
+  Variable args : list (string * fv).
+
+  Definition opt_of (done : list step) : list N := optional_vertices (steps_edges done).
+
+  Definition elems_ok (sub : ir_component) (l : list asg) : Prop :=
+    Forall (fun e => exists imp' n, In e (sem_comp re_match g args sub imp' (Some n))) l.
+
+  Definition fold_entry_ok (done : list step) (hc : fold_hdr * ir_component) (entry : N * option (list asg)) : Prop :=
+    fst entry = fo_eid (fst hc) /\
+    match snd entry with
+    | None => In (fo_from (fst hc)) (opt_of done)
+    | Some l => elems_ok (snd hc) l
+    end.
+
+  Record sinv (root : N) (done : list step) (a : asg) : Prop := {
+    si_keys : map fst (a_v a) = root :: map e_to (steps_edges done);
+    si_none : forall v, In (v, None) (a_v a) -> In v (opt_of done);
+    si_folds : Forall2 (fold_entry_ok done) (steps_folds done) (a_f a)
+  }.
+
+  Lemma step_edge_inv vs ss imp e a a' :
+    In a' (step_edge re_match g args vs ss imp e a) ->
+    exists c, a' = set_av a (e_to e) c /\
+      (c = None -> e_optional e = true \/ lookup_N (e_from e) (a_v a) = Some None
+                   \/ lookup_N (e_from e) (a_v a) = None).
+  Proof.
+    unfold step_edge. destruct (find_vertex vs (e_from e)) as [fromv|]; [|intros []].
+    destruct (find_vertex vs (e_to e)) as [tov|]; [|intros []].
+    intros H. apply in_flat_map in H. destruct H as (c & Hc & Ha).
+    destruct (enter re_match g args vs ss imp a tov c); [|destruct Ha].
+    destruct Ha as [<-|[]]. exists c. split; [reflexivity|]. intros ->.
+    destruct (lookup_N (e_from e) (a_v a)) as [[v|]|]; [|auto|auto].
+    destruct (e_rec e) as [r|].
+    - apply in_map_iff in Hc. destruct Hc as (x & Hx & _). discriminate.
+    - destruct (g_nbrs g (v_type fromv) (e_name e) (e_params e) v) as [|n0 ns].
+      + destruct (e_optional e); [now left|destruct Hc].
+      + apply in_map_iff in Hc. destruct Hc as (x & Hx & _). discriminate.
+  Qed.
+
+  Lemma step_fold_inv vs ss imp h sub a a' :
+    In a' (step_fold re_match g args vs ss imp h (sem_comp re_match g args sub) a) ->
+    (exists l, a' = set_af a (fo_eid h) (Some l) /\ elems_ok sub l) \/
+    (a' = set_af a (fo_eid h) None /\
+     (lookup_N (fo_from h) (a_v a) = Some None \/ lookup_N (fo_from h) (a_v a) = None)).
+  Proof.
+    unfold step_fold. destruct (find_vertex vs (fo_from h)) as [fromv|]; [|intros []].
+    destruct (lookup_N (fo_from h) (a_v a)) as [[v|]|].
+    - match goal with |- In _ (if ?b then _ else _) -> _ => destruct b end; [|intros []].
+      intros [<-|[]]. left. eexists. split; [reflexivity|].
+      apply Forall_forall. intros x Hx. apply in_flat_map in Hx. destruct Hx as (n & _ & Hx). eauto.
+    - intros [<-|[]]. right. auto.
+    - intros [<-|[]]. right. auto.
+  Qed.
+
+  Lemma fold_entry_mono done s hc entry :
+    fold_entry_ok done hc entry -> fold_entry_ok (done ++ [s]) hc entry.
+  Proof.
+    unfold fold_entry_ok, opt_of. intros (E & H). split; [exact E|].
+    destruct (snd entry); [exact H|]. rewrite steps_edges_app.
+    destruct s as [e|h c]; cbn [steps_edges]; [now apply optional_vertices_mono|now rewrite app_nil_r].
+  Qed.
+
+  Lemma sem_steps_inv vs ss imp root : forall todo done rows,
+    (forall a, In a rows -> sinv root done a) ->
+    bound_ok (root :: map e_to (steps_edges done)) todo ->
+    forall a', In a' (sem_steps re_match g args vs ss imp todo rows) -> sinv root (done ++ todo) a'.
+  Proof.
+    induction todo as [|s todo IH]; intros done rows Hrows Hb a' Ha'.
+    - rewrite app_nil_r. cbn [sem_steps] in Ha'. auto.
+    - replace (done ++ s :: todo) with ((done ++ [s]) ++ todo) by now rewrite <- app_assoc.
+      destruct s as [e|h sub]; cbn [sem_steps bound_ok] in Ha', Hb; destruct Hb as (Hfrom & Hb).
+      + eapply IH; [| |exact Ha'].
+        * intros a1 H1. apply in_flat_map in H1. destruct H1 as (a0 & H0 & H1).
+          destruct (Hrows _ H0) as [K Hn F].
+          destruct (step_edge_inv _ _ _ _ _ _ H1) as (c & -> & Hc).
+          constructor.
+          -- cbn [set_av a_v]. rewrite map_app, K, steps_edges_app. cbn [steps_edges map fst].
+             now rewrite map_app.
+          -- cbn [set_av a_v]. intros v Hv. apply in_app_or in Hv. unfold opt_of.
+             rewrite steps_edges_app. cbn [steps_edges]. destruct Hv as [Hv|[[= <- ->]|[]]].
+             ++ apply optional_vertices_mono. now apply Hn.
+             ++ rewrite optional_vertices_snoc. destruct (Hc eq_refl) as [Ho|[Hl|Hl]].
+                ** rewrite Ho. now left.
+                ** apply lookup_N_in in Hl. apply Hn in Hl. apply memN_In in Hl. fold (opt_of done).
+                   rewrite Hl, orb_true_r. now left.
+                ** exfalso. apply lookup_N_none in Hl. apply Hl. rewrite K. exact Hfrom.
+          -- cbn [set_av a_f]. rewrite steps_folds_app. cbn [steps_folds]. rewrite app_nil_r.
+             eapply Forall2_impl'; [|exact F]. intros x y. apply fold_entry_mono.
+        * rewrite steps_edges_app. cbn [steps_edges]. rewrite map_app. cbn [map].
+          eapply bound_ok_incl; [|exact Hb]. intros x [<-|Hx].
+          -- right. apply in_or_app. right. now left.
+          -- destruct Hx as [<-|Hx]; [now left|]. right. apply in_or_app. now left.
+      + eapply IH; [| |exact Ha'].
+        * intros a1 H1. apply in_flat_map in H1. destruct H1 as (a0 & H0 & H1).
+          destruct (Hrows _ H0) as [K Hn F].
+          assert (Hopt : opt_of (done ++ [SFold h sub]) = opt_of done).
+          { unfold opt_of. rewrite steps_edges_app. cbn [steps_edges]. now rewrite app_nil_r. }
+          assert (HF : Forall2 (fold_entry_ok (done ++ [SFold h sub])) (steps_folds done) (a_f a0)).
+          { eapply Forall2_impl'; [|exact F]. intros x y. apply fold_entry_mono. }
+          destruct (step_fold_inv _ _ _ _ _ _ _ H1) as [(l & -> & Hl)|(-> & Hl)].
+          -- constructor.
+             ++ cbn [set_af a_v]. rewrite K, steps_edges_app. cbn [steps_edges]. now rewrite app_nil_r.
+             ++ cbn [set_af a_v]. rewrite Hopt. exact Hn.
+             ++ cbn [set_af a_f]. rewrite steps_folds_app. cbn [steps_folds].
+                apply Forall2_app_one; [exact HF|]. split; [reflexivity|exact Hl].
+          -- constructor.
+             ++ cbn [set_af a_v]. rewrite K, steps_edges_app. cbn [steps_edges]. now rewrite app_nil_r.
+             ++ cbn [set_af a_v]. rewrite Hopt. exact Hn.
+             ++ cbn [set_af a_f]. rewrite steps_folds_app. cbn [steps_folds].
+                apply Forall2_app_one; [exact HF|]. split; [reflexivity|]. cbn [snd fst]. rewrite Hopt.
+                destruct Hl as [Hl|Hl].
+                ** apply lookup_N_in in Hl. now apply Hn.
+                ** exfalso. apply lookup_N_none in Hl. apply Hl. rewrite K. exact Hfrom.
+        * rewrite steps_edges_app. cbn [steps_edges]. rewrite app_nil_r. exact Hb.
+  Qed.
+
+  Lemma sem_comp_inv root vs ss outs imp r0 a :
+    bound_ok [root] ss ->
+    In a (sem_comp re_match g args (mkComp root vs ss outs) imp (Some r0)) ->
+    sinv root ss a.
+  Proof.
+    intros Hb Ha. rewrite sem_comp_eq in Ha. destruct (find_vertex vs root) as [rv|]; [|destruct Ha].
+    destruct (enter re_match g args vs ss imp (Asg [] []) rv (Some r0)); [|destruct Ha].
+    change (sinv root ([] ++ ss) a). eapply sem_steps_inv; [|exact Hb|exact Ha].
+    intros a0 [<-|[]]. constructor; cbn [a_v a_f steps_edges steps_folds map fst].
+    - reflexivity.
+    - intros v [[=]|[]].
+    - constructor.
+  Qed.
+End SemShape.
+
+(* ================================================================== *)
+(* 11. C13: values are valid for the declared types                    *)
+(* ================================================================== *)
+Lemma wrap_lists_app s1 : forall t s2,
+  wrap_lists t (s1 ++ s2) = (do t' <- wrap_lists t s1; wrap_lists t' s2).
+Proof.
+  induction s1 as [|b r IH]; intros t s2; cbn [app wrap_lists bind]; [reflexivity|].
+  destruct (ty_list t b); cbn [bind]; [apply IH|reflexivity].
+Qed.
+
+Lemma get_output_type_split v ft opt s1 s2 t :
+  get_output_type v ft opt (s1 ++ s2) = Ok t ->
+  exists t1, get_output_type v ft opt s1 = Ok t1 /\ wrap_lists t1 s2 = Ok t.
+Proof. unfold get_output_type. rewrite wrap_lists_app. intros H. inv_bind H. eauto. Qed.
+
+Lemma declares_split c stack n t v : declares c stack n t v ->
+  forall s1 s2, stack = s1 ++ s2 -> exists t1, declares c s1 n t1 v /\ wrap_lists t1 s2 = Ok t.
+Proof.
+  induction 1 as [root vs es fs outs stack n cf t Hin Ht|root vs es fs outs stack h sub n t Hin Hn Ht
+                  |root vs es fs outs stack h sub n t v Hin Hd IH]; intros s1 s2 ->.
+  - destruct (get_output_type_split _ _ _ _ _ _ Ht) as (t1 & H1 & H2). exists t1. split; [|exact H2]. eapply decl_own; eauto.
+  - destruct (get_output_type_split _ _ _ _ _ _ Ht) as (t1 & H1 & H2). exists t1. split; [|exact H2]. eapply decl_count; eauto.
+  - destruct (IH (memN (fo_from h) (optional_vertices es) :: s1) s2 eq_refl) as (t1 & H1 & H2).
+    exists t1. split; [|exact H2]. eapply decl_inner; eauto.
+Qed.
+
+Lemma declares_name c stack n t v : declares c stack n t v -> In n (all_outs c).
+Proof.
+  induction 1 as [root vs es fs outs stack n cf t Hin Ht|root vs es fs outs stack h sub n t Hin Hn Ht
+                  |root vs es fs outs stack h sub n t v Hin Hd IH]; rewrite all_outs_eq; apply in_or_app.
+  - left. apply in_map_iff. exists (n, cf). auto.
+  - right. apply in_flat_map. exists (RFold h sub). split; [exact Hin|]. cbn [sub_outs]. apply in_or_app. now left.
+  - right. apply in_flat_map. exists (RFold h sub). split; [exact Hin|]. cbn [sub_outs]. apply in_or_app. now right.
+Qed.
+
+Lemma wrap_lists_wf stack : forall t0 t, wf_ty t0 = true -> wrap_lists t0 stack = Ok t -> wf_ty t = true.
+Proof.
+  induction stack as [|b r IH]; intros t0 t W H; cbn [wrap_lists] in H.
+  - now injection H as <-.
+  - inv_bind H. pose proof (ty_list_spec t0 b W) as Hs.
+    destruct (Nat.eqb (ty_depth t0) 30); [congruence|].
+    destruct Hs as (t' & E & W' & _). rewrite E in Hx. injection Hx as <-. eapply IH; eauto.
+Qed.
+
+Lemma get_output_type_wf v ft opt stack t :
+  wf_ty ft = true -> get_output_type v ft opt stack = Ok t -> wf_ty t = true.
+Proof.
+  unfold get_output_type. intros W H. destruct (memN v opt); [|eapply wrap_lists_wf; eauto].
+  eapply wrap_lists_wf; [|exact H]. now destruct (ty_with_nullability_spec ft true W).
+Qed.
+
+Lemma outputs_typed_inv S root vs es fs outs :
+  outputs_typed S (RComp root vs es fs outs) ->
+  (forall n cf, In (n, cf) outs ->
+     wf_ty (cf_ty cf) = true /\
+     forall vtx, find_vertex vs (cf_vid cf) = Some vtx -> S (v_type vtx) (cf_name cf) = Some (cf_ty cf)) /\
+  (forall h sub, In (RFold h sub) fs -> outputs_typed S sub).
+Proof.
+  cbn [outputs_typed]. intros (H1 & H2). split; [exact H1|].
+  induction fs as [|[h' sub'] r IH]; intros h sub Hin; [destruct Hin|].
+  destruct H2 as (Hs & Hr). destruct Hin as [[= <- <-]|Hin]; [exact Hs|]. eapply IH; eauto.
+Qed.
+
+Lemma declares_wf S c stack n t v : declares c stack n t v -> outputs_typed S c -> wf_ty t = true.
+Proof.
+  induction 1 as [root vs es fs outs stack n cf t Hin Ht|root vs es fs outs stack h sub n t Hin Hn Ht
+                  |root vs es fs outs stack h sub n t v Hin Hd IH]; intros Hot;
+    destruct (outputs_typed_inv _ _ _ _ _ _ Hot) as (Ho & Hf).
+  - destruct (Ho _ _ Hin) as (W & _). eapply get_output_type_wf; eauto.
+  - eapply get_output_type_wf; [|exact Ht]. apply count_type_wf.
+  - apply IH. eapply Hf. exact Hin.
+Qed.
+
+Lemma valid_with_nullable t v :
+  wf_ty t = true -> ty_valid t v = Ok true -> ty_valid (ty_with_nullability t true) v = Ok true.
+Proof.
+  intros W. destruct (wf_view' _ W) as (s & a & _ & ->).
+  rewrite with_nullability_T, !ty_valid_T. destruct a as [x|x i]; destruct v; cbn [awith_null a_valid anull];
+    intros H; try exact H; try reflexivity.
+Qed.
+
+Lemma ty_valid_list_intro t t1 xs :
+  ty_as_list t = Some t1 -> Forall (fun x => ty_valid t1 x = Ok true) xs -> ty_valid t (List xs) = Ok true.
+Proof.
+  intros Ha HF. cbn [ty_valid]. rewrite Ha. induction HF as [|x r Hx _ IH]; [reflexivity|].
+  rewrite Hx. cbn [bind]. exact IH.
+Qed.
+
+Lemma lookup_str_map_key {A} (f : string -> A) names n :
+  In n names -> lookup_str n (map (fun k => (k, f k)) names) = Some (f n).
+Proof.
+  induction names as [|k r IH]; [intros []|]. cbn [map lookup_str].
+  destruct (String.eqb_spec n k) as [->|Hne]; [reflexivity|]. intros [E|Hin]; [congruence|auto].
+Qed.
+
+Lemma lookup_str_some_of_key {A} n (l : list (string * A)) : In n (map fst l) -> exists x, lookup_str n l = Some x.
+Proof.
+  intros H. destruct (lookup_str n l) eqn:E; [eauto|]. apply lookup_str_none in E. contradiction.
+Qed.
+
+Lemma names_steps_in ss h sub : In (SFold h sub) ss -> incl (fo_fsout h ++ all_output_names sub) (names_steps ss).
+Proof.
+  induction ss as [|[e|h' sub'] r IH]; intros Hin x Hx; [destruct Hin| |].
+  - destruct Hin as [H|H]; [discriminate|]. cbn [names_steps]. now apply IH.
+  - cbn [names_steps]. rewrite app_assoc. apply in_or_app. destruct Hin as [[= <- <-]|H]; [now left|right; now apply IH].
+Qed.
+
+Lemma lookup_project_steps g a n h sub : forall ss,
+  NoDup (names_steps ss) -> In (SFold h sub) ss -> In n (fo_fsout h ++ all_output_names sub) ->
+  lookup_str n (project_steps g a ss) = lookup_str n (fold_row g a h sub).
+Proof.
+  induction ss as [|[e|h' sub'] r IH]; intros Hn Hin Hx; [destruct Hin| |].
+  - destruct Hin as [H|H]; [discriminate|]. cbn [project_steps names_steps] in *. now apply IH.
+  - cbn [project_steps names_steps] in *. rewrite app_assoc in Hn. rewrite lookup_str_app.
+    destruct Hin as [[= <- <-]|H].
+    + destruct (lookup_str_some_of_key n (fold_row g a h' sub')) as (x & ->); [now rewrite fold_row_keys|reflexivity].
+    + assert (Hnone : lookup_str n (fold_row g a h' sub') = None).
+      { apply lookup_str_none. rewrite fold_row_keys. intros Hk.
+        apply (NoDup_app_disj _ _ n Hn Hk). exact (names_steps_in _ _ _ H _ Hx). }
+      rewrite Hnone. apply IH; [eapply NoDup_app_r; exact Hn|exact H|exact Hx].
+Qed.
+
+Lemma find_vertex_some vs v : In v (map v_vid vs) -> exists vtx, find_vertex vs v = Some vtx.
+Proof.
+  induction vs as [|x r IH]; [intros []|]. cbn [map In find_vertex].
+  destruct (N.eqb_spec (v_vid x) v); [eauto|]. intros [E|H]; [congruence|auto].
+Qed.
+
+Lemma all_outs_fold_nodup root vs es fs outs h sub :
+  NoDup (all_outs (RComp root vs es fs outs)) -> In (RFold h sub) fs -> NoDup (fo_fsout h ++ all_outs sub).
+Proof.
+  rewrite all_outs_eq. intros Hn Hin. apply NoDup_app_r in Hn.
+  exact (NoDup_flat_map_in sub_outs _ _ Hn Hin).
+Qed.
+
+(* everything the typing argument needs to know about one component *)
+Definition good (vars : list (string * ty)) (S : schema_lite) (c : raw_comp) : Prop :=
+  (exists avail, wf_comp vars avail c = true) /\ NoDup (all_eids c) /\ NoDup (all_outs c)
+  /\ interval_ok c = true /\ outputs_typed S c.
+
+Lemma good_sub vars S root vs es fs outs h sub :
+  good vars S (RComp root vs es fs outs) -> In (RFold h sub) fs -> good vars S sub.
+Proof.
+  intros ((avail & Hwf) & Hne & Hno & Hiv & Hot) Hin.
+  pose proof (wf_comp_inv _ _ _ _ _ _ _ Hwf) as (_ & _ & _ & _ & _ & _ & _ & Hfolds).
+  destruct (Hfolds _ _ Hin) as (_ & Hiv' & _ & Hwf').
+  split; [eauto|]. split.
+  { pose proof (all_eids_fold_nodup _ _ _ _ _ _ _ Hne Hin) as Hn. now inversion Hn. }
+  split. { eapply NoDup_app_r. eapply all_outs_fold_nodup; eauto. }
+  split; [exact Hiv'|]. destruct (outputs_typed_inv _ _ _ _ _ _ Hot) as (_ & Hf). eapply Hf; eauto.
+Qed.
+
+Lemma lower_facts vars avail root vs es fs outs c' :
+  wf_comp vars avail (RComp root vs es fs outs) = true ->
+  NoDup (all_eids (RComp root vs es fs outs)) -> interval_ok (RComp root vs es fs outs) = true ->
+  lower (RComp root vs es fs outs) = Ok c' ->
+  exists ss fs', c' = mkComp root vs ss outs /\ steps_edges ss = es /\ steps_folds ss = fs' /\
+    Forall2 (fun f hc => fst hc = rf_hdr f /\ lower (rf_comp f) = Ok (snd hc)) fs fs' /\
+    bound_ok [root] ss /\ NoDup (root :: map e_to es) /\ NoDup (fold_eids fs') /\
+    StronglySorted N.lt (map step_eid ss).
+Proof.
+  intros Hwf Hnd Hiv Hl.
+  pose proof (wf_comp_inv _ _ _ _ _ _ _ Hwf) as (Hse & Hsf & Hroot & Hent & Hedges & _ & _ & Hfolds).
+  destruct (lower_inv _ _ _ _ _ _ Hl) as (fs' & ss & Hlf & Hm & ->).
+  pose proof (lower_folds_inv _ _ Hlf) as HF2.
+  assert (Efe : fold_eids fs' = comp_feids fs).
+  { clear - HF2. unfold fold_eids, comp_feids. induction HF2 as [|f hc l1 l2 (E & _) _ IH]; [reflexivity|].
+    cbn [map]. now rewrite IH, E. }
+  destruct (merge_steps_ok es fs') as (ss0 & Hm0 & Ees & Efs & Hsorted).
+  { now apply sortedN_strong. } { rewrite Efe. now apply sortedN_strong. }
+  { rewrite Efe. intros x Hx Hy. cbn [all_eids] in Hnd. apply (NoDup_app_disj _ _ x Hnd Hx).
+    unfold comp_feids in Hy. apply in_map_iff in Hy. destruct Hy as ([h sub] & <- & Hin).
+    apply in_flat_map. exists (RFold h sub). split; [assumption|now left]. }
+  rewrite Hm in Hm0. injection Hm0 as <-.
+  assert (Hstep : forall s, In s ss ->
+            step_to s = step_eid s + 1 /\ step_from s < step_to s /\ In (step_from s) (comp_vids vs)).
+  { intros s Hs. apply in_steps in Hs. destruct s as [e|h c0].
+    - rewrite Ees in Hs. destruct (edge_wf_inv _ _ (Hedges _ Hs)) as (E1 & E2 & _ & E4 & _).
+      cbn [step_to step_eid step_from]. auto.
+    - rewrite Efs in Hs. destruct (Forall2_in_r _ _ _ _ HF2 Hs) as ([h' sub] & Hin & (Eh & _)).
+      cbn [fst rf_hdr] in Eh. subst h'.
+      destruct (Hfolds _ _ Hin) as (Hh & _). destruct (fold_hdr_wf_inv _ _ _ _ _ _ Hh) as (E1 & E2 & E3 & _).
+      cbn [step_to step_eid step_from]. auto. }
+  exists ss, fs'. split; [reflexivity|]. split; [exact Ees|]. split; [exact Efs|]. split; [exact HF2|].
+  split; [|split; [|split; [|exact Hsorted]]].
+  - apply bound_ok_sorted; [exact Hsorted|intros s Hs; destruct (Hstep s Hs) as (A & B & _); auto|].
+    intros s Hs. destruct (Hstep s Hs) as (_ & _ & E3).
+    destruct (Hent _ E3) as [->|Hin]; [left; now left|].
+    right. apply in_map_iff in Hin. destruct Hin as (e' & E & He').
+    exists e'. split; [|exact E]. apply in_steps. now rewrite Ees.
+  - assert (Hto : map e_to es = map (fun x => x + 1) (map e_eid es)).
+    { rewrite map_map. apply map_ext_in. intros e He. now destruct (edge_wf_inv _ _ (Hedges _ He)). }
+    constructor.
+    + intros Hin. rewrite Hto in Hin. apply in_map_iff in Hin. destruct Hin as (x & Ex & Hx).
+      destruct (interval_ok_inv _ Hiv x) as (Hlo & _); [cbn [all_eids]; apply in_or_app; now left|].
+      cbn [raw_root] in Hlo. lia.
+    + rewrite Hto. apply FinFun.Injective_map_NoDup; [intros x y; lia|].
+      apply StronglySorted_NoDup. now apply sortedN_strong.
+  - rewrite Efe. apply StronglySorted_NoDup. now apply sortedN_strong.
+Qed.
+
+Lemma Forall2_keys_eq {A B} (R : A -> B -> Prop) (ka : A -> N) (kb : B -> N) l1 l2 :
+  Forall2 R l1 l2 -> (forall x y, R x y -> kb y = ka x) -> map kb l2 = map ka l1.
+Proof. intros H Hk. induction H as [|x y l1 l2 Hxy _ IH]; [reflexivity|]. cbn [map]. rewrite IH. now rewrite (Hk x y Hxy). Qed.
+
+Lemma declares_inv root vs es fs outs stack n t v :
+  declares (RComp root vs es fs outs) stack n t v ->
+  (exists cf, In (n, cf) outs /\ v = cf_vid cf /\
+              get_output_type (cf_vid cf) (cf_ty cf) (optional_vertices es) stack = Ok t) \/
+  (exists h sub, In (RFold h sub) fs /\ In n (fo_fsout h) /\ v = fo_to h /\
+                 get_output_type (fo_from h) count_type (optional_vertices es) stack = Ok t) \/
+  (exists h sub, In (RFold h sub) fs /\
+                 declares sub (memN (fo_from h) (optional_vertices es) :: stack) n t v).
+Proof.
+  inversion 1; subst.
+  - left. eauto.
+  - right. left. eauto 10.
+  - right. right. eauto.
+Qed.
+
+Section Typed.
+  Variable re_match : string -> string -> option bool.
+  Variable g : graph.
+  Variable args : list (string * fv).
+  Variable vars : list (string * ty).
+  Variable S : schema_lite.
+  Hypothesis Hconf : conforms S g.
+
+  Lemma count_types_valid (b : bool) z :
+    ty_valid (if b then ty_with_nullability count_type true else count_type) (U64 z) = Ok true.
+  Proof. destruct b; reflexivity. Qed.
+
+  Theorem local_typed : forall c c',
+    good vars S c -> lower c = Ok c' ->
+    forall n t v, declares c [] n t v ->
+    forall imp r0 a, In a (sem_comp re_match g args c' imp (Some r0)) ->
+      ty_valid t (row_get (project g c' a) n) = Ok true.
+  Proof.
+    induction c as [root vs es fs outs IHfs] using raw_comp_ind'.
+    intros c' Hgood Hl n t v Hd imp r0 a Ha.
+    pose proof Hgood as ((avail & Hwf) & Hne & Hno & Hiv & Hot).
+    pose proof (wf_comp_inv _ _ _ _ _ _ _ Hwf) as (_ & _ & Hroot & Hent & _ & _ & Houts & Hfolds).
+    destruct (outputs_typed_inv _ _ _ _ _ _ Hot) as (Hoty & _).
+    destruct (lower_facts _ _ _ _ _ _ _ _ Hwf Hne Hiv Hl) as (ss & fs' & -> & Ees & Efs & HF2 & Hb & Hkeys & Hfk & _).
+    pose proof (sem_comp_inv _ _ _ _ _ _ _ _ _ _ Hb Ha) as [K Hnone HF].
+    pose proof (lower_names _ _ Hl) as Enames.
+    rewrite all_output_names_eq, all_outs_eq in Enames.
+    assert (Hnames : names_steps ss = flat_map sub_outs fs) by (eapply app_inv_head; exact Enames).
+    rewrite all_outs_eq in Hno.
+    unfold opt_of in Hnone. rewrite Ees in Hnone, K.
+    (* keys of the fold assignments *)
+    assert (Kf : map fst (a_f a) = fold_eids fs').
+    { rewrite Efs in HF. unfold fold_eids.
+      apply (Forall2_keys_eq _ (fun hc => fo_eid (fst hc)) fst _ _ HF). now intros x y (E & _). }
+    assert (Hbound : forall x, In x (comp_vids vs) -> exists o, lookup_N x (a_v a) = Some o /\ In (x, o) (a_v a)).
+    { intros x Hx. destruct (lookup_N x (a_v a)) as [o|] eqn:E.
+      - exists o. split; [reflexivity|now apply lookup_N_in].
+      - exfalso. apply lookup_N_none in E. apply E. rewrite K.
+        destruct (Hent _ Hx) as [->|Hin]; [now left|now right]. }
+    (* the entry of a fold *)
+    assert (Hentry : forall h sub, In (RFold h sub) fs ->
+              exists sub' x, In (SFold h sub') ss /\ lower sub = Ok sub' /\
+                lookup_N (fo_eid h) (a_f a) = Some x /\
+                match x with
+                | None => In (fo_from h) (optional_vertices es)
+                | Some l => elems_ok re_match g args sub' l
+                end).
+    { intros h sub Hin. destruct (Forall2_in_l _ _ _ _ HF2 Hin) as ([h' sub'] & Hin' & (Eh & Hls)).
+      cbn [fst snd rf_hdr rf_comp] in Eh, Hls. subst h'.
+      rewrite Efs in HF. destruct (Forall2_in_l _ _ _ _ HF Hin') as ([k x] & Hk & (Ek & Hx)).
+      cbn [fst snd] in Ek, Hx. subst k. exists sub', x. split; [apply in_steps; now rewrite Efs|].
+      split; [exact Hls|]. split.
+      - apply lookup_N_nodup; [rewrite Kf; exact Hfk|exact Hk].
+      - unfold opt_of in Hx. rewrite Ees in Hx. exact Hx. }
+    rewrite project_eq. unfold row_get. rewrite lookup_str_app.
+    destruct (declares_inv _ _ _ _ _ _ _ _ _ Hd) as [(cf & Hin & -> & Ht)|[(h & sub & Hin & Hn & -> & Ht)|(h & sub & Hin & Hd')]].
+    - (* own output *)
+      assert (Hl1 : lookup_str n (own_row g vs a outs) = Some (out_value g vs a cf)).
+      { apply lookup_str_nodup.
+        - unfold own_row. rewrite map_map. cbn [fst]. eapply NoDup_app_l. exact Hno.
+        - unfold own_row. apply in_map_iff. exists (n, cf). auto. }
+      rewrite Hl1. unfold get_output_type in Ht. cbn [wrap_lists] in Ht.
+      destruct (Hoty _ _ Hin) as (W & Hty).
+      pose proof (Houts _ Hin) as Hv. cbn [snd] in Hv.
+      destruct (find_vertex_some _ _ Hv) as (vtx & Hfv). destruct (Hbound _ Hv) as (o & Hlo & Hino).
+      unfold out_value. rewrite Hfv, Hlo. destruct o as [x|].
+      + pose proof (Hconf _ _ _ x (Hty _ Hfv)) as Hval.
+        destruct (memN (cf_vid cf) (optional_vertices es)); injection Ht as <-; [now apply valid_with_nullable|exact Hval].
+      + apply Hnone in Hino. apply memN_In in Hino.
+        assert (Et : t = ty_with_nullability (cf_ty cf) true) by (rewrite Hino in Ht; congruence). subst t.
+        cbn [ty_valid]. now destruct (ty_with_nullability_spec (cf_ty cf) true W) as (_ & -> & _).
+    - (* fold count *)
+      assert (Hn1 : lookup_str n (own_row g vs a outs) = None).
+      { apply lookup_str_none. unfold own_row. rewrite map_map. cbn [fst]. intros Hk.
+        apply (NoDup_app_disj _ _ n Hno Hk). apply in_flat_map. exists (RFold h sub). split; [exact Hin|].
+        cbn [sub_outs]. apply in_or_app. now left. }
+      rewrite Hn1. destruct (Hentry _ _ Hin) as (sub' & x & Hs' & Hls & Hlx & Hx).
+      rewrite (lookup_project_steps g a n h sub' ss).
+      + unfold fold_row. rewrite Hlx. unfold get_output_type in Ht. cbn [wrap_lists] in Ht.
+        destruct x as [l|].
+        * rewrite lookup_str_app, (lookup_str_map_key (fun _ => U64 (Z.of_nat (List.length l))) _ _ Hn).
+          injection Ht as <-. apply count_types_valid.
+        * rewrite (lookup_str_map_key (fun _ => Null)) by (apply in_or_app; now left).
+          apply memN_In in Hx. rewrite Hx in Ht. injection Ht as <-. reflexivity.
+      + rewrite Hnames. eapply NoDup_app_r. exact Hno.
+      + exact Hs'.
+      + apply in_or_app. now left.
+    - (* an output of the folded component *)
+      pose proof (declares_name _ _ _ _ _ Hd') as Hnsub.
+      assert (Hn1 : lookup_str n (own_row g vs a outs) = None).
+      { apply lookup_str_none. unfold own_row. rewrite map_map. cbn [fst]. intros Hk.
+        apply (NoDup_app_disj _ _ n Hno Hk). apply in_flat_map. exists (RFold h sub). split; [exact Hin|].
+        cbn [sub_outs]. apply in_or_app. now right. }
+      rewrite Hn1. destruct (Hentry _ _ Hin) as (sub' & x & Hs' & Hls & Hlx & Hx).
+      pose proof (lower_names _ _ Hls) as Esub.
+      pose proof (good_sub _ _ _ _ _ _ _ _ _ Hgood Hin) as Hgsub.
+      destruct (declares_split _ _ _ _ _ Hd' [] [memN (fo_from h) (optional_vertices es)] eq_refl) as (t1 & Hd1 & Hw).
+      cbn [wrap_lists] in Hw. inv_bind Hw. injection Hw as <-.
+      assert (W1 : wf_ty t1 = true).
+      { destruct Hgsub as (_ & _ & _ & _ & Hot'). exact (declares_wf S _ _ _ _ _ Hd1 Hot'). }
+      pose proof (ty_list_spec t1 (memN (fo_from h) (optional_vertices es)) W1) as Hsp.
+      destruct (Nat.eqb (ty_depth t1) 30); [congruence|].
+      destruct Hsp as (t' & E & _ & Hal & Hnl & _). rewrite E in Hx0. injection Hx0 as <-.
+      rewrite (lookup_project_steps g a n h sub' ss).
+      + unfold fold_row. rewrite Hlx. destruct x as [l|].
+        * rewrite lookup_str_app.
+          assert (Hc0 : lookup_str n (map (fun k => (k, U64 (Z.of_nat (List.length l)))) (fo_fsout h)) = None).
+          { apply lookup_str_none. rewrite map_map. cbn [fst]. rewrite map_id. intros Hk.
+            pose proof (all_outs_fold_nodup root vs es fs outs h sub ltac:(rewrite all_outs_eq; exact Hno) Hin) as Hnd.
+            exact (NoDup_app_disj _ _ n Hnd Hk Hnsub). }
+          rewrite Hc0.
+          rewrite (lookup_str_map_key (fun k => List (map (fun r => row_get r k) (map (project g sub') l))))
+            by (rewrite Esub; exact Hnsub).
+          apply (ty_valid_list_intro _ _ _ Hal). rewrite map_map. apply Forall_forall. intros y Hy.
+          apply in_map_iff in Hy. destruct Hy as (e & <- & He).
+          unfold elems_ok in Hx. rewrite Forall_forall in Hx. destruct (Hx _ He) as (imp' & n0 & He').
+          rewrite Forall_forall in IHfs. exact (IHfs _ Hin sub' Hgsub Hls _ _ _ Hd1 _ _ _ He').
+        * rewrite (lookup_str_map_key (fun _ => Null)) by (apply in_or_app; right; rewrite Esub; exact Hnsub).
+          cbn [ty_valid]. rewrite Hnl. apply memN_In in Hx. now rewrite Hx.
+      + rewrite Hnames. eapply NoDup_app_r. exact Hno.
+      + exact Hs'.
+      + apply in_or_app. right. rewrite Esub. exact Hnsub.
+  Qed.
+End Typed.
+
+(* ================================================================== *)
+(* 12. C13: the top-level statements                                   *)
+(* ================================================================== *)
+Lemma wf_ir_good S q : wf_ir q = true -> outputs_typed S (rq_comp q) -> good (rq_vars q) S (rq_comp q).
+Proof.
+  intros H Hot. destruct (wf_ir_inv q H) as (Hwf & _ & Hne & Hno & Hiv).
+  split; [eauto|]. auto.
+Qed.
+
+Theorem row_typed re g args S q ix q' :
+  conforms S g -> wf_ir q = true -> outputs_typed S (rq_comp q) ->
+  index_query q = Ok (inr ix) -> lower_query q = Ok q' ->
+  forall row, In row (sem re g args q') ->
+  forall n t v, In (n, (t, v)) (ix_outputs ix) -> ty_valid t (row_get row n) = Ok true.
+Proof.
+  intros Hconf Hwf Hot Hi Hl row Hrow n t v Hin.
+  unfold index_query in Hi. inv_bind Hi. destruct x as [e|st]; [discriminate|]. injection Hi as <-.
+  destruct (add_shape _ _ _ _ _ Hx) as (nv & ne & no & _ & _ & _ & _ & A3 & _ & Hd).
+  cbn [ix_outputs st_outs app] in *. rewrite A3 in Hin. apply Hd in Hin.
+  unfold lower_query in Hl. inv_bind Hl. injection Hl as <-.
+  unfold sem in Hrow. cbn [q_comp q_root_name q_root_params] in Hrow.
+  apply in_map_iff in Hrow. destruct Hrow as (a & <- & Ha).
+  apply in_flat_map in Ha. destruct Ha as (s & _ & Ha).
+  unfold row_get. rewrite lookup_sort_row.
+  exact (local_typed re g args (rq_vars q) S Hconf _ _ (wf_ir_good S q Hwf Hot) Hx0 _ _ _ Hin _ _ _ Ha).
+Qed.
+
+(* ---- what "inside @optional" means for the declared types ---- *)
+Inductive under_optional (es : list ir_edge) : N -> Prop :=
+| uo_edge e : In e es -> e_optional e = true -> under_optional es (e_to e)
+| uo_below e : In e es -> under_optional es (e_from e) -> under_optional es (e_to e).
+
+Definition edges_ordered (es : list ir_edge) : Prop :=
+  StronglySorted (fun a b => e_to a < e_to b) es /\ forall e, In e es -> e_from e < e_to e.
+
+Lemma StronglySorted_snoc_inv {A} (R : A -> A -> Prop) l x :
+  StronglySorted R (l ++ [x]) -> StronglySorted R l /\ Forall (fun y => R y x) l.
+Proof.
+  induction l as [|a l IH]; cbn [app]; intros H; [split; constructor|].
+  inversion H as [|? ? H1 H2]; subst. destruct (IH H1) as (S1 & F1).
+  apply Forall_app in H2. destruct H2 as (H2 & H3). split.
+  - constructor; assumption.
+  - constructor; [now inversion H3|assumption].
+Qed.
+
+Lemma optional_vertices_spec es : edges_ordered es ->
+  forall v, In v (optional_vertices es) <->
+            exists e, In e es /\ e_to e = v /\ (e_optional e = true \/ In (e_from e) (optional_vertices es)).
+Proof.
+  induction es as [|e es IH] using rev_ind; intros (Hs & Hlt) v.
+  - cbn. split; [intros []|intros (e & [] & _)].
+  - destruct (StronglySorted_snoc_inv _ _ _ Hs) as (Hs' & Hlast).
+    assert (Hord : edges_ordered es) by (split; [exact Hs'|intros e0 H0; apply Hlt; apply in_or_app; now left]).
+    specialize (IH Hord). rewrite Forall_forall in Hlast.
+    assert (Hmono : forall x, In x (optional_vertices es) -> In x (optional_vertices (es ++ [e])))
+      by (intros x; apply optional_vertices_mono).
+    assert (Hnew : forall x, In x (optional_vertices (es ++ [e])) -> In x (optional_vertices es) \/
+                     (x = e_to e /\ (e_optional e = true \/ In (e_from e) (optional_vertices es)))).
+    { intros x. rewrite optional_vertices_snoc.
+      destruct (e_optional e) eqn:Eo; cbn [orb].
+      - intros [<-|H]; [right; auto|now left].
+      - destruct (memN (e_from e) (optional_vertices es)) eqn:Em.
+        + apply memN_In in Em. intros [<-|H]; [right; auto|now left].
+        + now left. }
+    split.
+    + intros H. destruct (Hnew _ H) as [H0|(-> & Hc)].
+      * apply IH in H0. destruct H0 as (e0 & H0 & E0 & Hc0). exists e0.
+        split; [apply in_or_app; now left|]. split; [exact E0|]. destruct Hc0; auto.
+      * exists e. split; [apply in_or_app; right; now left|]. split; [reflexivity|]. destruct Hc; auto.
+    + intros (e0 & H0 & <- & Hc). apply in_app_or in H0. destruct H0 as [H0|[<-|[]]].
+      * apply Hmono. apply IH. exists e0. split; [exact H0|]. split; [reflexivity|].
+        destruct Hc as [Hc|Hc]; [now left|]. right.
+        destruct (Hnew _ Hc) as [H1|(E1 & _)]; [exact H1|].
+        pose proof (Hlast _ H0). pose proof (Hlt e0 ltac:(apply in_or_app; now left)). lia.
+      * rewrite optional_vertices_snoc. destruct Hc as [->|Hc]; [now left|].
+        destruct (Hnew _ Hc) as [H1|(E1 & _)].
+        -- apply memN_In in H1. rewrite H1, orb_true_r. now left.
+        -- pose proof (Hlt e ltac:(apply in_or_app; right; now left)). lia.
+Qed.
+
+(* a vertex is in get_optional_vertices_in_component iff an @optional edge lies on its path from the root *)
+Theorem optional_vertices_under es : edges_ordered es ->
+  forall v, In v (optional_vertices es) <-> under_optional es v.
+Proof.
+  intros Ho v. split.
+  - revert v. apply (well_founded_induction N.lt_wf_0 (fun v => In v (optional_vertices es) -> under_optional es v)).
+    intros v IH Hv. apply (optional_vertices_spec es Ho) in Hv. destruct Hv as (e & He & <- & [Hc|Hc]).
+    + now apply uo_edge.
+    + apply uo_below; [exact He|]. apply IH; [|exact Hc]. now apply (proj2 Ho).
+  - induction 1 as [e He Hc|e He _ IH]; apply (optional_vertices_spec es Ho); exists e; auto.
+Qed.
+
+Lemma wf_edges_ordered vars avail root vs es fs outs :
+  wf_comp vars avail (RComp root vs es fs outs) = true -> edges_ordered es.
+Proof.
+  intros Hwf. pose proof (wf_comp_inv _ _ _ _ _ _ _ Hwf) as (Hse & _ & _ & _ & Hedges & _).
+  split; [|intros e He; now destruct (edge_wf_inv _ _ (Hedges _ He)) as (_ & _ & _ & H & _)].
+  apply sortedN_strong in Hse. clear - Hse Hedges.
+  induction es as [|e r IH]; [constructor|]. cbn [map] in Hse. inversion Hse as [|? ? H1 H2]; subst.
+  constructor; [apply IH; [exact H1|intros e0 H0; apply Hedges; now right]|].
+  apply Forall_forall. intros e0 H0. rewrite Forall_forall in H2. specialize (H2 _ (in_map e_eid _ _ H0)).
+  destruct (edge_wf_inv _ _ (Hedges e (or_introl eq_refl))) as (E1 & _).
+  destruct (edge_wf_inv _ _ (Hedges e0 (or_intror H0))) as (E2 & _). lia.
+Qed.
+
+(* clause 1: an output of the component itself *)
+Theorem declared_own_clause v ft opt t :
+  get_output_type v ft opt [] = Ok t ->
+  t = if memN v opt then ty_with_nullability ft true else ft.
+Proof. unfold get_output_type. cbn [wrap_lists]. now intros [= <-]. Qed.
+
+(* clause 3: a fold-count output *)
+Theorem declared_count_clause v opt t :
+  get_output_type v count_type opt [] = Ok t ->
+  t = if memN v opt then ty_named "Int" true else ty_named "Int" false.
+Proof. intros H. apply declared_own_clause in H. rewrite H. destruct (memN v opt); reflexivity. Qed.
+
+(* clause 2: one list level per enclosing fold, nullable iff the fold starts inside @optional *)
+Theorem declared_fold_clause S sub b n t v :
+  outputs_typed S sub -> declares sub [b] n t v ->
+  exists t1, declares sub [] n t1 v /\ ty_as_list t = Some t1 /\ ty_is_list t = true /\ ty_nullable t = b.
+Proof.
+  intros Hot Hd. destruct (declares_split _ _ _ _ _ Hd [] [b] eq_refl) as (t1 & Hd1 & Hw).
+  cbn [wrap_lists] in Hw. inv_bind Hw. injection Hw as <-.
+  pose proof (declares_wf S _ _ _ _ _ Hd1 Hot) as W1.
+  pose proof (ty_list_spec t1 b W1) as Hsp. destruct (Nat.eqb (ty_depth t1) 30); [congruence|].
+  destruct Hsp as (t' & E & _ & Hal & Hnl & Hil & _). rewrite E in Hx. injection Hx as <-. eauto.
+Qed.
+
+(* rows of the specification carry exactly the outputs the indexer declares *)
+Theorem sem_rows_carry_indexed_outputs re g args q ix q' :
+  index_query q = Ok (inr ix) -> lower_query q = Ok q' ->
+  forall row, In row (sem re g args q') ->
+    Permutation (map fst row) (map fst (ix_outputs ix)) /\
+    forall n, lookup_str n row <> None <-> In n (map fst (ix_outputs ix)).
+Proof.
+  intros Hi Hl row Hrow. rewrite (declared_names_agree _ _ _ Hi Hl). exact (sem_row_keys re g args q' row Hrow).
+Qed.
+
+(* transfer to the engine model, for the part of C01 that is proved (fold-free queries) *)
+Theorem engine_rows_typed_fold_free_partial re g args S q ix q' rows :
+  ty_indep g -> conforms S g -> wf_ir q = true -> fold_free q = true -> outputs_typed S (rq_comp q) ->
+  index_query q = Ok (inr ix) -> lower_query q = Ok q' ->
+  interpret re g args q' = Ok rows ->
+  forall row, In row rows ->
+    (forall n, lookup_str n row <> None <-> In n (map fst (ix_outputs ix))) /\
+    forall n t v, In (n, (t, v)) (ix_outputs ix) -> ty_valid t (row_get row n) = Ok true.
+Proof.
+  intros Hind Hconf Hwf Hff Hot Hi Hl Hrows row Hrow.
+  pose proof (wf_fold_free_engine_refines re g args q q' rows Hind Hwf Hff Hl Hrows) as HF2.
+  destruct (Forall2_in_l _ _ _ _ HF2 Hrow) as (srow & Hs & Heq).
+  destruct (sem_rows_carry_indexed_outputs re g args q ix q' Hi Hl srow Hs) as (_ & Hk).
+  split.
+  - intros n. rewrite (Heq n). apply Hk.
+  - intros n t v Hin. unfold row_get. rewrite (Heq n).
+    exact (row_typed re g args S q ix q' Hconf Hwf Hot Hi Hl srow Hs n t v Hin).
+Qed.
+
+Theorem indexed_outputs_declared q ix n t v :
+  index_query q = Ok (inr ix) -> In (n, (t, v)) (ix_outputs ix) -> declares (rq_comp q) [] n t v.
+Proof.
+  unfold index_query. intros Hi Hin. inv_bind Hi. destruct x as [e|st]; [discriminate|]. injection Hi as <-.
+  destruct (add_shape _ _ _ _ _ Hx) as (nv & ne & no & _ & _ & _ & _ & A3 & _ & Hd).
+  cbn [ix_outputs st_outs app] in *. rewrite A3 in Hin. now apply Hd.
+Qed.
+
+(* ================================================================== *)
+(* 13. C11: tag operands are recorded before they are used             *)
+(* ================================================================== *)
+Lemma StronglySorted_app_r {A} (R : A -> A -> Prop) l1 l2 : StronglySorted R (l1 ++ l2) -> StronglySorted R l2.
+Proof. induction l1 as [|a l1 IH]; cbn [app]; [auto|]. intros H. inversion H; auto. Qed.
+
+Lemma sorted_split_before done s rest s' :
+  StronglySorted N.lt (map step_eid (done ++ s :: rest)) ->
+  In s' (done ++ s :: rest) -> step_eid s' < step_eid s -> In s' done.
+Proof.
+  intros Hs Hin Hlt. apply in_app_or in Hin. destruct Hin as [H|[<-|H]]; [exact H|lia|].
+  rewrite map_app in Hs. apply StronglySorted_app_r in Hs. cbn [map] in Hs.
+  inversion Hs as [|? ? _ HF]; subst. rewrite Forall_forall in HF.
+  specialize (HF _ (in_map step_eid _ _ H)). lia.
+Qed.
+
+Lemma find_vertex_in vs v x : find_vertex vs v = Some x -> In x vs /\ v_vid x = v.
+Proof.
+  induction vs as [|y r IH]; cbn [find_vertex]; [discriminate|].
+  destruct (N.eqb_spec (v_vid y) v) as [E|_]; [intros [= <-]; split; [now left|exact E]|].
+  intros H. destruct (IH H). split; [now right|assumption].
+Qed.
+
+Lemma tag_ok_inv vids feids avail u t : tag_ok vids feids avail u t = true ->
+  match t with
+  | FRContext cf => In (cf_vid cf) vids -> cf_vid cf <= u
+  | FRFold ff => In (ff_eid ff) feids -> ff_eid ff + 1 < u
+  end.
+Proof.
+  unfold tag_ok. destruct t as [cf|ff].
+  - intros H Hin. apply memN_In in Hin. rewrite Hin in H. now apply N.leb_le.
+  - intros H Hin. apply andb_prop in H. destruct H as (_ & H). apply memN_In in Hin. rewrite Hin in H. now apply N.ltb_lt.
+Qed.
+
+Section TagsRecorded.
+  Variable re_match : string -> string -> option bool.
+  Variable g : graph.
+  Variable args : list (string * fv).
+
+  (* where a tag operand defined by this component is found when a filter at `use` runs *)
+  Definition tag_recorded (vids feids : list N) (a : asg) (local : option N) (t : fieldref) : Prop :=
+    match t with
+    | FRContext cf => In (cf_vid cf) vids -> Some (cf_vid cf) = local \/ In (cf_vid cf) (map fst (a_v a))
+    | FRFold ff => In (ff_eid ff) feids -> In (ff_eid ff) (map fst (a_f a))
+    end.
+
+  Lemma recorded_before vars avail av root vs es fs outs ss done s rest a u t :
+    wf_comp vars avail (RComp root vs es fs outs) = true ->
+    NoDup (all_eids (RComp root vs es fs outs)) -> interval_ok (RComp root vs es fs outs) = true ->
+    lower (RComp root vs es fs outs) = Ok (mkComp root vs ss outs) ->
+    ss = done ++ s :: rest -> sinv re_match g args root done a ->
+    u = step_to s ->
+    tag_ok (comp_vids vs) (comp_feids fs) av u t = true ->
+    match t with
+    | FRContext cf => In (cf_vid cf) (comp_vids vs) -> cf_vid cf = u \/ In (cf_vid cf) (map fst (a_v a))
+    | FRFold ff => In (ff_eid ff) (comp_feids fs) -> In (ff_eid ff) (map fst (a_f a))
+    end.
+  Proof.
+    intros Hwf Hne Hiv Hl Hss [K _ HF] Hu Htag.
+    pose proof (wf_comp_inv _ _ _ _ _ _ _ Hwf) as (_ & _ & _ & Hent & Hedges & _ & _ & Hfolds).
+    destruct (lower_facts _ _ _ _ _ _ _ _ Hwf Hne Hiv Hl) as (ss0 & fs' & E0 & Ees & Efs & HF2 & _ & _ & _ & Hsorted).
+    injection E0 as <-.
+    assert (Hus : u = step_eid s + 1).
+    { assert (Hs : In s ss) by (rewrite Hss; apply in_or_app; right; now left).
+      apply in_steps in Hs. destruct s as [e|h c0]; cbn [step_to step_eid] in *.
+      - rewrite Ees in Hs. destruct (edge_wf_inv _ _ (Hedges _ Hs)) as (E1 & _). now rewrite Hu.
+      - rewrite Efs in Hs. destruct (Forall2_in_r _ _ _ _ HF2 Hs) as ([h' sub] & Hin & (Eh & _)).
+        cbn [fst rf_hdr] in Eh. subst h'. destruct (Hfolds _ _ Hin) as (Hh & _).
+        destruct (fold_hdr_wf_inv _ _ _ _ _ _ Hh) as (E1 & _). now rewrite Hu. }
+    pose proof (tag_ok_inv _ _ _ _ _ Htag) as Hinv. destruct t as [cf|ff]; intros Hin; specialize (Hinv Hin).
+    - destruct (N.eq_dec (cf_vid cf) u) as [E|Hne']; [now left|right]. rewrite K.
+      destruct (Hent _ Hin) as [->|Hto]; [now left|right].
+      apply in_map_iff in Hto. destruct Hto as (e' & E' & He').
+      apply in_map_iff. exists e'. split; [exact E'|].
+      assert (Hs' : In (SEdge e') ss) by (apply in_steps; now rewrite Ees).
+      rewrite Hss in Hs', Hsorted.
+      pose proof (sorted_split_before done s rest (SEdge e') Hsorted Hs') as Hd.
+      cbn [step_eid] in Hd. destruct (edge_wf_inv _ _ (Hedges _ He')) as (E1 & _).
+      assert (Hdone : In (SEdge e') done) by (apply Hd; lia).
+      apply in_steps in Hdone. exact Hdone.
+    - unfold comp_feids in Hin. apply in_map_iff in Hin. destruct Hin as ([h sub] & Eh & Hf). cbn [rf_hdr] in Eh.
+      destruct (Forall2_in_l _ _ _ _ HF2 Hf) as ([h' sub'] & Hin' & (Eh' & _)). cbn [fst rf_hdr] in Eh'. subst h'.
+      assert (Hs' : In (SFold h sub') ss) by (apply in_steps; now rewrite Efs).
+      rewrite Hss in Hs', Hsorted.
+      pose proof (sorted_split_before done s rest (SFold h sub') Hsorted Hs') as Hd. cbn [step_eid] in Hd.
+      assert (Hdone : In (SFold h sub') done) by (apply Hd; lia).
+      apply in_steps in Hdone.
+      assert (Kf : map fst (a_f a) = fold_eids (steps_folds done)).
+      { unfold fold_eids. apply (Forall2_keys_eq _ (fun hc => fo_eid (fst hc)) fst _ _ HF). now intros x y (E & _). }
+      rewrite Kf. unfold fold_eids. apply in_map_iff. exists (h, sub'). split; [exact Eh|exact Hdone].
+  Qed.
+
+  (* vertex filters: when the edge leading to a vertex is processed, every tag operand of that
+     vertex' filters that this component defines is the filtered vertex itself or already recorded
+     (`context.vertices[&vid]` / `folded_contexts[&eid]` cannot miss) *)
+  Theorem vertex_filter_tags_recorded vars avail root vs es fs outs ss done e rest a tov f t :
+    wf_comp vars avail (RComp root vs es fs outs) = true ->
+    NoDup (all_eids (RComp root vs es fs outs)) -> interval_ok (RComp root vs es fs outs) = true ->
+    lower (RComp root vs es fs outs) = Ok (mkComp root vs ss outs) ->
+    ss = done ++ SEdge e :: rest -> sinv re_match g args root done a ->
+    find_vertex vs (e_to e) = Some tov -> In f (v_filters tov) -> In t (arg_tags (vf_arg f)) ->
+    tag_recorded (comp_vids vs) (comp_feids fs) a (Some (e_to e)) t.
+  Proof.
+    intros Hwf Hne Hiv Hl Hss Hinv Hfv Hf Ht.
+    pose proof (wf_comp_inv _ _ _ _ _ _ _ Hwf) as (_ & _ & _ & _ & _ & Hverts & _).
+    destruct (find_vertex_in _ _ _ Hfv) as (Hin & Evid).
+    specialize (Hverts _ Hin). unfold vertex_wf in Hverts. rewrite forallb_forall in Hverts.
+    specialize (Hverts _ Hf). unfold arg_wf in Hverts. apply andb_prop in Hverts. destruct Hverts as (_ & Htags).
+    rewrite forallb_forall in Htags. specialize (Htags _ Ht). rewrite Evid in Htags.
+    pose proof (recorded_before _ _ _ _ _ _ _ _ _ _ _ _ _ _ t Hwf Hne Hiv Hl Hss Hinv eq_refl Htags) as H.
+    cbn [step_to] in H. destruct t as [cf|ff]; cbn [tag_recorded]; intros Hd; specialize (H Hd); [|exact H].
+    destruct H as [E|H]; [left; now rewrite E|now right].
+  Qed.
+
+  (* folds: when a fold starts, every imported tag and every post-filter tag operand that this
+     component defines is already recorded *)
+  Theorem fold_tags_recorded vars avail root vs es fs outs ss done h sub' rest a t :
+    wf_comp vars avail (RComp root vs es fs outs) = true ->
+    NoDup (all_eids (RComp root vs es fs outs)) -> NoDup (all_vids (RComp root vs es fs outs)) ->
+    interval_ok (RComp root vs es fs outs) = true ->
+    lower (RComp root vs es fs outs) = Ok (mkComp root vs ss outs) ->
+    ss = done ++ SFold h sub' :: rest -> sinv re_match g args root done a ->
+    In t (fo_imported h ++ post_tags h) ->
+    tag_recorded (comp_vids vs) (comp_feids fs) a None t.
+  Proof.
+    intros Hwf Hne Hnv Hiv Hl Hss Hinv Ht.
+    pose proof (wf_comp_inv _ _ _ _ _ _ _ Hwf) as (_ & _ & _ & _ & _ & _ & _ & Hfolds).
+    destruct (lower_facts _ _ _ _ _ _ _ _ Hwf Hne Hiv Hl) as (ss0 & fs' & E0 & _ & Efs & HF2 & _).
+    injection E0 as <-.
+    assert (Hs : In (h, sub') fs').
+    { rewrite <- Efs. apply in_steps with (s := SFold h sub'). rewrite Hss. apply in_or_app. right. now left. }
+    destruct (Forall2_in_r _ _ _ _ HF2 Hs) as ([h' sub] & Hin & (Eh & _)). cbn [fst rf_hdr] in Eh. subst h'.
+    destruct (Hfolds _ _ Hin) as (Hh & _ & _ & Hwsub).
+    destruct (fold_hdr_wf_inv _ _ _ _ _ _ Hh) as (_ & _ & _ & Eroot & Hpost & Himp).
+    assert (Htag : exists av, tag_ok (comp_vids vs) (comp_feids fs) av (fo_to h) t = true).
+    { apply in_app_or in Ht. destruct Ht as [Ht|Ht]; [eauto|].
+      unfold post_tags in Ht. apply in_flat_map in Ht. destruct Ht as (p & Hp & Ht).
+      specialize (Hpost _ Hp). unfold arg_wf in Hpost. apply andb_prop in Hpost. destruct Hpost as (_ & Hp').
+      rewrite forallb_forall in Hp'. eauto. }
+    destruct Htag as (av & Htag).
+    pose proof (recorded_before _ _ _ _ _ _ _ _ _ _ _ _ _ _ t Hwf Hne Hiv Hl Hss Hinv eq_refl Htag) as H.
+    cbn [step_to] in H. destruct t as [cf|ff]; cbn [tag_recorded]; intros Hd; [|exact (H Hd)].
+    destruct (H Hd) as [E|Hr]; [|now right]. exfalso.
+    (* the fold's root is a vertex of the folded component, not of this one *)
+    destruct sub as [sroot svs ses sfs souts]. cbn [raw_root] in Eroot.
+    pose proof (wf_comp_inv _ _ _ _ _ _ _ Hwsub) as (_ & _ & Hsr & _).
+    rewrite all_vids_eq in Hnv. apply (NoDup_app_disj _ _ (cf_vid cf) Hnv Hd).
+    apply in_flat_map. exists (RFold h (RComp sroot svs ses sfs souts)). split; [exact Hin|].
+    cbn [sub_vids]. rewrite all_vids_eq. apply in_or_app. left. rewrite E, Eroot. exact Hsr.
+  Qed.
+End TagsRecorded.
